@@ -545,8 +545,8 @@ def projection_shape(prog: Program, rep) -> None:
                 stores.append(st)
     if len(stores) == 1:
         st = stores[0]
-        v = st.value
-        ok_store = U(st.targets[0].slice) == aset and np_call(v, "clip") and len(v.args) == 3 and \
+        v = ff.resolved(st, st.value)
+        ok_store = U(ff.resolved(st, st.targets[0].slice)) == aset and np_call(v, "clip") and len(v.args) == 3 and not v.keywords and \
             [U(a) for a in v.args] == [f"{xs}[{aset}]", f"{lb}[{aset}]", f"{ub}[{aset}]"]
     rep.check(ok_copy and ok_store and len(stores) == 1, "projection-shape", pb.qualname, short(stores[0]) if stores else "project_box",
               "project_box returns a copy of x in which exactly the active components are replaced by clip(x, lb, ub) (lower bound first, same mask on all three)", pb.loc())
